@@ -274,6 +274,19 @@ class CallMixin:
             return T.scalar(st, s)
         raise Unsupported(f"set() of {v.ty}")
 
+    def bi_zip(self, e, p):
+        """zip(a, b) of two positional lists: the positional list of pairs, as long as the shorter one."""
+        if len(e.args) != 2 or e.keywords:
+            raise Unsupported("zip of other than two lists")
+        a, b = (self.ev(x, p) for x in e.args)
+        if not (isinstance(a.ty, T.Seq) and isinstance(b.ty, T.Seq)):
+            raise Unsupported(f"zip of {a.ty}, {b.ty}")
+        pt = T.Pair(a.ty.e, b.ty.e)
+        at = fresh("zip", z3.ArraySort(T.I, pt.sort()))
+        j = fresh("j", T.I)
+        self._assume(p, z3.ForAll([j], at[j] == pt.mk(a.at[j], b.at[j]), patterns=[at[j]]))
+        return T.sv_seq(pt, z3.If(a.len <= b.len, a.len, b.len), at)
+
     def bi_sorted(self, e, p):
         if len(e.args) != 1 or e.keywords:
             raise Unsupported("sorted with key/reverse")
@@ -283,8 +296,24 @@ class CallMixin:
         if isinstance(v.ty, T.Bag) or v.ty == T.EMPTYLIST:
             return v      # order is not modelled for bags
         if isinstance(v.ty, (T.Set, T.Map)):
+            if self.cur is not None and "sorted_positional" in self.cur.options:
+                return self.sorted_seq(v, p)
             return self.as_listing(v, p)
         raise Unsupported(f"sorted of {v.ty}")
+
+    def sorted_seq(self, v, p):
+        """sorted(S) for a set / the keys of a dict, as a positional list: a function of the set alone (the order itself is not modelled:
+        SORTED_K(S) is uninterpreted), listing every member exactly once.  Assumes the elements are mutually comparable."""
+        st = T.Set(v.ty.k) if isinstance(v.ty, T.Map) else v.ty
+        s = v.dom if isinstance(v.ty, T.Map) else v.t
+        at = TH.sorted_fn(st.e)(s)
+        idx = TH.sorted_idx_fn(st.e)
+        ln = st.card()(s)
+        j, x = fresh("j", T.I), fresh("x", st.e.sort())
+        self._assume(p, ln >= 0)
+        self._assume(p, z3.ForAll([j], z3.Implies(z3.And(0 <= j, j < ln), z3.And(s[at[j]], idx(s, at[j]) == j)), patterns=[at[j]]))
+        self._assume(p, z3.ForAll([x], z3.Implies(s[x], z3.And(0 <= idx(s, x), idx(s, x) < ln, at[idx(s, x)] == x)), patterns=[s[x], idx(s, x)]))
+        return T.sv_seq(st.e, ln, at)
 
     def bi_max(self, e, p):
         return self._extremum(e, p, True)
@@ -380,6 +409,10 @@ class CallMixin:
                     return T.sv_none()
                 recv = self.coerce(recv, s.ty)
             rt = recv.ty
+        if isinstance(rt, T.Seq) and name == "append":
+            x = self.coerce(args[0], rt.e)
+            self.store(f.value, T.sv_seq(rt.e, recv.len + 1, z3.Store(recv.at, recv.len, x.t)), p)
+            return T.sv_none()
         if isinstance(rt, T.Bag):
             if name == "append":
                 x = self.coerce(args[0], rt.e)
@@ -471,7 +504,7 @@ class CallMixin:
         k = fresh("k", m.ty.k.sort())
         v = fresh("v", m.ty.v.sort())
         pre = z3.Function(f"preimg!{next(T._fresh)}", m.ty.v.sort(), m.ty.k.sort())
-        self._assume(p, z3.ForAll([k], z3.Implies(m.dom[k], b[m.val[k]] >= 1), patterns=[m.val[k]]))
+        self._assume(p, z3.ForAll([k], z3.Implies(m.dom[k], b[m.val[k]] >= 1), patterns=[m.val[k], m.dom[k]]))
         self._assume(p, z3.ForAll([v], z3.Implies(b[v] >= 1, z3.And(m.dom[pre(v)], m.val[pre(v)] == v)), patterns=[b[v]]))
         self._assume(p, z3.ForAll([v], b[v] >= 0, patterns=[b[v]]))
         self._assume(p, bt.blen()(b) == T.Set(m.ty.k).card()(m.dom))
@@ -632,7 +665,7 @@ class CallMixin:
         mt = T.Map(et, fx.ty)
         dom = fresh("dc_dom", z3.ArraySort(et.sort(), T.B))
         val = fresh("dc_val", z3.ArraySort(et.sort(), fx.ty.sort()))
-        self._assume(p, z3.ForAll([x], dom[x] == z3.And(inb, c), patterns=[dom[x]]))
+        self._assume(p, z3.ForAll([x], dom[x] == z3.And(inb, c), patterns=[dom[x], src.t[x]]))
         self._assume(p, z3.ForAll([x], z3.Implies(z3.And(inb, c), val[x] == fx.t), patterns=[val[x]]))
         return T.sv_map(et, fx.ty, dom, val)
 
